@@ -30,10 +30,16 @@ CFG = 'deny zap "NOZAP"\nallow okcmd\nask askcmd\nallow-redirect /jail/out/*\nde
 EXECS = [
     "docker exec c", "docker exec -it c", "docker exec -i -t c", "docker exec -e A=1 c", "docker exec --env=A=1 c", "docker exec -w /app c",
     "docker exec -u root c", "docker exec --user=root -it c", "docker exec --workdir /app -e B=2 c", "podman exec c", "podman exec -it c",
-    "docker container exec c", "docker exec -d c", "docker exec --privileged c",
+    "docker exec -d c", "docker exec --privileged c",
     "kubectl exec pod --", "kubectl exec -it pod --", "kubectl exec -n ns pod --", "kubectl exec pod -c ctr --", "kubectl exec -i -t -n ns pod -c ctr --",
     "kubectl exec --namespace=ns pod --", "kubectl exec deploy/app --", "kubectl -n ns exec pod --", "kubectl --context prod exec pod --",
 ]
+# spellings Dippy does NOT treat as a delegation (the docker handler knows `exec` only as a top-level
+# subcommand): nothing is relaxed for them, the whole line is an unknown docker subcommand.  They were in EXECS
+# at first; the thorough tier then reported `docker container exec c zap` = ask against `zap` = deny, which
+# demands more than the property states (it speaks of commands that ARE delegated).  Control oracle instead:
+# such a line is never approved, whatever the inner command.
+NOT_DELEGATED = ["docker container exec c", "podman container exec c", "docker compose exec svc"]
 INNER_PLAIN = ["ls", "ls -la", "cat f", "echo hi", "git status", "okcmd a", "rm x", "git push", "frobnicate a", "askcmd", "zap", "zap a b",
                "sh -c ls", "sh -c 'rm x'", "bash -c 'zap'", "env ls", "env rm x", "timeout 5 ls", "nice zap", "time rm x", "xargs ls",
                "sh -c 'ls; zap'", "X=1 zap", "command -- git push", "nohup frobnicate a", "ls --help", "frobnicate --help",
@@ -97,6 +103,15 @@ def run(tier, seed, replay=None):
                 out.disagreements.append({"correspondence": "Ladder.ladder <-> _analyze_simple_command", "words": words, "model": mv, "impl": lv})
         if out.evaluations % 61 == 0:
             out.sample({"program": text, "verdict": v_exec, "inner_alone": v_in})
+    for e, inner in itertools.product(NOT_DELEGATED, INNER_PLAIN[:12]):
+        text = f"{e} {inner}"
+        v = verdict(text)
+        out.case(["not-delegated", text])
+        out.count("shape", "not-delegated-control")
+        if v == "allow":
+            out.violations.append({"kind": "undelegated-approved", "what": f"{text!r} is approved although Dippy does not analyse its inner command",
+                                   "program": text, "config": CFG, "signature_text": text})
+        correspond(text)
     # (b) only path checks are relaxed
     for e, (pathy, plain) in itertools.product(execs, INNER_PATHY):
         text = f"{e} {pathy}"
